@@ -387,14 +387,16 @@ class ThreadPoolServer(Server):
             # the connection has already been unregistered
             pass
 
-    def _drop_connection(self, fd):
+    def _drop_connection(self, fd, conn=None):
         '''removes a connection by closing it and removing it from internal structs'''
-        conn = None
-
         # cleanup fd_to_conn dictionnary
         try:
-            conn = self.fd_to_conn[fd]
-            del self.fd_to_conn[fd]
+            if conn is None:
+                conn = self.fd_to_conn[fd]
+            # the descriptor number of a connection that has already been closed may by now belong to a
+            # newer connection: only forget the entry if it is still the connection being dropped
+            if self.fd_to_conn[fd] is conn:
+                del self.fd_to_conn[fd]
         except KeyError:
             # the active connection has already been removed
             pass
@@ -445,6 +447,7 @@ class ThreadPoolServer(Server):
     def _serve_requests(self, fd):
         '''Serves requests from the given connection and puts it back to the appropriate queue'''
         # serve a maximum of RequestBatchSize requests for this connection
+        conn = self.fd_to_conn.get(fd)
         for _ in range(self.request_batch_size):
             try:
                 if not self.fd_to_conn[fd].poll():  # note that poll serves the request
@@ -453,7 +456,7 @@ class ThreadPoolServer(Server):
                     return
             except EOFError:
                 # the connection has been closed by the remote end. Close it on our side and return
-                self._drop_connection(fd)
+                self._drop_connection(fd, conn)
                 return
             except Exception:
                 # put back the connection to active queue in doubt and raise the exception to the upper level
